@@ -171,3 +171,21 @@ claim(
     "current shape of macro_args; an equivalent rewrite is reported for review.",
     "DESIGN.md section 5 C27",
 )
+
+claim(
+    "C22",
+    "FLOW",
+    "static: taint/dominance of traversal guards over every path join in the two resolvers; who-may rule for file reads",
+    "Full structural decision: in FileSystemLoader.resolve_path and PackageLoader._resolve_path the "
+    "'..'-in-parts and is_absolute raise-guards hold for the current value of the path variable "
+    "on every path reaching base.joinpath(x) (with_suffix preserves them, any other rebinding "
+    "kills them), only the guarded candidate is returned, and with reject_symlinks the "
+    "candidate.resolve().is_relative_to(base.resolve()) test precedes the return; get_source and "
+    "get_source_async of the plain, caching and package loaders (through the MRO) read only from "
+    "the resolver's return value; the resolvers raise nothing but TemplateNotFoundError "
+    "(with_suffix behind a non-empty-name guard, file-system probes inside try/except OSError). "
+    "Holds for every template name, which a sampled sandbox cannot show.",
+    "Trusted: pathlib/importlib.resources semantics. Errors while reading an already resolved "
+    "file (decode errors, deletion races) are outside 'a name that cannot be resolved'.",
+    "DESIGN.md section 5 C22",
+)
